@@ -411,6 +411,18 @@ def lone_item(value):
     return value
 
 
+def mixed_beyond_double(lval, rval):
+    """one operand a float, the other a whole number that no double holds exactly, both finite"""
+    whole, other = (rval, lval) if isinstance(lval, float) else (lval, rval)
+    return (isinstance(whole, integer_types) and not isinstance(whole, bool) and abs(whole) > 2 ** 53
+            and other == other and not math.isinf(other))
+
+
+def exact_fraction(value):
+    from fractions import Fraction
+    return Fraction(value)
+
+
 def evaluate_arithmetic(op, lval, rval):
     lval, rval = as_lists(lval), as_lists(rval)  # rows handed in as tuples
     # an error is the result whatever the other operand is (the left one first) - also the error
@@ -447,7 +459,12 @@ def evaluate_arithmetic(op, lval, rval):
         rval = rconv(rval)
 
     try:
-        result = OPERATOR_DICT[op](lval, rval)
+        if isinstance(lval, float) != isinstance(rval, float) and mixed_beyond_double(lval, rval):
+            # the interpreter would turn the whole number into a double first (rounding it, or refusing it
+            # beyond 1.8e308): the exact result is rounded once instead
+            result = float(OPERATOR_DICT[op](exact_fraction(lval), exact_fraction(rval)))
+        else:
+            result = OPERATOR_DICT[op](lval, rval)
         if isinstance(result, float) and math.isinf(result) and not (
                 isinstance(lval, float) and math.isinf(lval) or isinstance(rval, float) and math.isinf(rval)):
             # float arithmetic overflows silently: beyond the largest number is #NUM!, not infinity
